@@ -588,8 +588,13 @@ static void reconfigure(const struct cfg5 *c0, struct rx *x, struct vf_rng *r)
 				o->start[0] = sp->start[0]; o->start[1] = sp->start[1]; o->count[0] = sp->count[0]; o->count[1] = sp->count[1];
 				o->interlaced = sp->interlaced; o->synchronous = sp->synchronous;
 			}
-			vf_phase("vbi_raw_decoder_add_services");
-			vbi_raw_decoder_add_services(o, c.req, c.strict);
+			/* vbi_raw_decoder_resize() alone puts the new geometry into effect; adding services afterwards
+			   copies the public fields into the decoder once more and would hide a resize that did not */
+			if (!use_resize || vf_chance(r, 1, 2)) {
+				vf_phase("vbi_raw_decoder_add_services");
+				vbi_raw_decoder_add_services(o, c.req, c.strict);
+			} else
+				vf_count("reconfigured_by_resize_alone", 1);
 		}
 		img_size = (size_t)scan * (size_t)sp->bytes_per_line;
 		img = EXACT_ALLOC(img_size, end_aligned);
